@@ -22,6 +22,11 @@ Proof.
       exists (c :: a), b. split; [reflexivity | simpl; now rewrite L].
 Qed.
 
+(** ---- loadRawMsg is the identity on every text that has a CRLF ---- *)
+
+Lemma load_raw_transparent recon : contains recon crlf = true -> load_raw recon = recon.
+Proof. unfold load_raw. now intros ->. Qed.
+
 (** ---- (a) ---- *)
 
 Lemma size_is_length raw rows b :
